@@ -90,3 +90,92 @@ theorem fixed_serves_fresh :
 #print axioms run_fixed_invariant
 #print axioms pinned_serves_stale
 end GeoVerif
+
+namespace GeoVerif
+
+theorem abs_read (p : Proc) (path : String) : specRead p.abs path = readFile p path := rfl
+
+/-- one step of the repaired client refines the specification step -/
+theorem stepFixed_refines (sim) (p : Proc) (h : CacheOk sim p) (op : Op) :
+    (stepFixed sim p op).1.abs = (specStep sim p.abs op).1 ∧ (stepFixed sim p op).2 = (specStep sim p.abs op).2 ∧
+    CacheOk sim (stepFixed sim p op).1 ∧ (stepFixed sim p op).1.argv = p.argv := by
+  have hs := stepFixed_spec sim p h op
+  cases op with
+  | rewrite path content =>
+    simp only [stepFixed, specStep, Proc.abs] at hs ⊢
+    exact ⟨trivial, trivial, hs.1, hs.2.1⟩
+  | chdir d =>
+    simp only [stepFixed, specStep, Proc.abs] at hs ⊢
+    exact ⟨trivial, trivial, hs.1, hs.2.1⟩
+  | request path caching =>
+    have hf : (stepFixed sim p (.request path caching)).1.files = p.files := by
+      simp only [stepFixed]
+      split
+      · rfl
+      · split <;> rfl
+    generalize hst : stepFixed sim p (.request path caching) = st at hs hf ⊢
+    obtain ⟨p', o⟩ := st
+    simp only at hs hf
+    obtain ⟨h1, h2, h3, h4⟩ := hs
+    refine ⟨?_, ?_, h1, h2⟩
+    · simp only [Proc.abs, specStep]
+      rw [hf, h3]
+    · simp only [specStep, abs_read]
+      exact h4
+
+/-- every history: the outputs of the (repaired) client are those of the specification — a result is always the
+simulation of the file content at the moment of the request, whatever ran before, with or without caching -/
+theorem run_fixed_refines (sim) (ops : List Op) (p : Proc) (h : CacheOk sim p) :
+    (run (stepFixed sim) p ops).2 = (specRun sim p.abs ops).2 ∧ (run (stepFixed sim) p ops).1.abs = (specRun sim p.abs ops).1 ∧
+    (run (stepFixed sim) p ops).1.argv = p.argv := by
+  induction ops generalizing p with
+  | nil => exact ⟨rfl, rfl, rfl⟩
+  | cons op ops ih =>
+    obtain ⟨ha, ho, hc, hargv⟩ := stepFixed_refines sim p h op
+    have := ih (stepFixed sim p op).1 hc
+    simp only [run, specRun]
+    rw [← ha, ← ho]
+    refine ⟨by rw [this.1], this.2.1, by rw [this.2.2, hargv]⟩
+
+/-- the working directory after any history is the argument of the last `chdir` (or the initial one): requests,
+successful or failed, never move it -/
+def lastChdir (init : String) : List Op → String
+  | [] => init
+  | .chdir d :: ops => lastChdir d ops
+  | _ :: ops => lastChdir init ops
+
+theorem specRun_cwd (sim) (ops : List Op) (s : SpecProc) : (specRun sim s ops).1.cwd = lastChdir s.cwd ops := by
+  induction ops generalizing s with
+  | nil => rfl
+  | cons op ops ih =>
+    cases op with
+    | rewrite path content => simp only [specRun, specStep, lastChdir]; rw [ih]
+    | chdir d => simp only [specRun, specStep, lastChdir]; rw [ih]
+    | request path c => simp only [specRun, specStep, lastChdir]; rw [ih]
+
+theorem run_fixed_cwd (sim) (ops : List Op) (p : Proc) (h : CacheOk sim p) :
+    (run (stepFixed sim) p ops).1.cwd = lastChdir p.cwd ops := by
+  have := (run_fixed_refines sim ops p h).2.1
+  have h2 := specRun_cwd sim ops p.abs
+  rw [← this] at h2
+  exact h2
+
+/-- memoisation is transparent when the table only holds pairs of the function's graph -/
+theorem memo_transparent (f : String → String) (tbl : List (String × String)) (x : String)
+    (hinv : ∀ e ∈ tbl, e.2 = f e.1) :
+    (memo f tbl x).1 = f x ∧ ∀ e ∈ (memo f tbl x).2, e.2 = f e.1 := by
+  unfold memo
+  cases hf : tbl.find? (·.1 == x) with
+  | some e =>
+    have hmem := List.mem_of_find?_eq_some hf
+    have hk : e.1 = x := by simpa using List.find?_some hf
+    exact ⟨by simp only; rw [hinv e hmem, hk], hinv⟩
+  | none =>
+    refine ⟨rfl, ?_⟩
+    intro e he
+    simp only [List.mem_cons] at he
+    rcases he with rfl | he
+    · rfl
+    · exact hinv e he
+
+end GeoVerif
